@@ -117,6 +117,8 @@ func runC08(cx *Ctx, r *Report) {
 	// ------------------------------------------------ callback discipline
 	cx.c08Callback(r)
 	cx.lostUpdateRule(r, []string{"service", "oracle", "random"}, 40)
+	cx.scanPrefixClosedRule(r, []string{"service"}, "scan-prefix-closed")
+	cx.keyEncodingUniformRule(r, []string{"service"}, "key-encoding-uniform")
 	// every entry of the three service work lists is taken off its list by the body that
 	// processes it, on every path (rule shared with C13): a context whose entry stays behind
 	// at a past height is never scheduled again and issues no further batch
